@@ -164,8 +164,17 @@ def run(ctx):
         it_["no_struct"] = True
         items.append(it_)
         n_stale += 1
+    # register outcomes carried across the iterations of an open loop (behavioural oracle only)
+    n_carried = 0
+    for _ in range(30 if quick else 300):
+        prog, script = sa.gen_loop_carried(rng)
+        it_ = item_of(repo, fd, prog, script, "register-outcome-across-iterations", late=rng.random() < 0.5)
+        it_["no_struct"] = True
+        items.append(it_)
+        n_carried += 1
     ctx.coverage["stream"] = dict(base_programs=n_prog, cases=len(items), corpus=n_corpus, statement_kinds=kinds,
                                   late_read_cases=n_late, register_outcome_across_flush_cases=n_stale,
+                                  register_outcome_across_iterations_cases=n_carried,
                                   depth_histogram=depths)
     for it in items:
         k = sa.stmt_kinds(it["prog"])
